@@ -61,6 +61,24 @@ def gen_case(rng, tie=False):
     return {"d": d, "kind": kind, "H": H, "ppp": ppp, "n": n, "flat": flat, "R": R, "tie": tie}
 
 
+def gen_sibling(rng, c):
+    """a second call in the same process whose cell has the SAME diagonal (box lengths) but different tilt factors and the
+    same vectors: `remove_pbc` is a pure function of its arguments, so hidden state carried from one call to the next (a cached
+    inverse keyed by box lengths, a module-level buffer) shows up as a disagreement on the second call of the pair"""
+    d = c["d"]
+    H = [row[:] for row in c["H"]]
+    for i in range(d):
+        for j in range(i):
+            H[i][j] = dec(rng, -2, 2) if c["kind"] != "orth" or rng.random() < 0.8 else "0"
+    if c["kind"] != "orth" and rng.random() < 0.3:      # sheared cell followed by the orthogonal cell of the same lengths
+        for i in range(d):
+            for j in range(d):
+                if i != j:
+                    H[i][j] = "0"
+    kind = "orth" if all(H[i][j] in ("0", "0.000") for i in range(d) for j in range(d) if i != j) else "tri"
+    return dict(c, H=H, kind=kind, sibling=True, prev={k: v for k, v in c.items() if k != 'prev'})
+
+
 def op_line(c):
     d = c["d"]
     return "pbc {} {} {} {} {}".format(d, " ".join(x for row in c["H"] for x in row), " ".join(c["ppp"]), c["n"],
@@ -68,6 +86,8 @@ def op_line(c):
 
 
 def real_out(c):
+    if c.get("prev"):
+        real_out(c["prev"])        # replay the call history: the predecessor call happens first, in the same process
     R = [[float(x) for x in row] for row in c["R"]]
     H = [[float(x) for x in row] for row in c["H"]]
     ppp = [int(x) for x in c["ppp"]]
@@ -149,7 +169,7 @@ def run_cases(run, cases):
         margin = fr(toks[0])
         model = [float(fr(t)) for t in toks[1:]]
         run.hist("dim", c["d"]); run.hist("cell", c["kind"]); run.hist("mask", "".join(c["ppp"]))
-        run.hist("shape", "(d,)" if c["flat"] else "(n,d)")
+        run.hist("shape", "(d,)" if c["flat"] else "(n,d)"); run.hist("history", "second call, same box lengths" if c.get("sibling") else "independent")
         if rerr is not None:
             disagreements.append((c, "real code raised " + rerr))
             continue
@@ -172,7 +192,12 @@ def run_cases(run, cases):
 
 def correspond(run):
     n = 400 if run.tier == "quick" else 20000
-    cases = common.load_corpus(PROP) + [gen_case(run.rng, tie=(i % 10 == 9)) for i in range(n)]
+    cases = common.load_corpus(PROP)
+    for i in range(n):
+        c = gen_case(run.rng, tie=(i % 10 == 9))
+        cases.append(c)
+        if i % 4 == 0 and not c["tie"] and c["kind"] != "gen":
+            cases.append(gen_sibling(run.rng, c))       # call history: same box lengths, different tilt, same process
     dis, mon = run_cases(run, cases)
     run.coverage["traces_validated_against_impl"] = run.coverage["evaluations"]
     broken = []
@@ -200,6 +225,8 @@ def shrink(c, rng):
     best = c
     for a in range(len(c["R"])):
         cand = dict(c, R=[c["R"][a]], n=1)
+        if c.get("prev"):
+            cand["prev"] = dict(c["prev"], R=[c["prev"]["R"][a]], n=1)
         if failing(cand, rng):
             best = cand
             break
